@@ -7,10 +7,28 @@ import os, subprocess, json
 from lib import vf
 
 MANIFEST = {
- 'text': "Coq theorems: (1) a file is attributed to the nearest enclosing repository root for every history of earlier look-ups, over paths as component lists (prefix-sharing siblings and nested repositories covered; the pre-fix string-prefix cache is refuted by witnesses); (2) for EVERY interleaving of the atomic cache operations of all files of a run (FindMetadata / WriteWorkflowCallEvent on the shared per-project caches), each file's result equals its result when linted alone, provided the callees are well-formed (loads succeed, AST-derived interface = file-derived interface) — by a consistency invariant over schedules; without that proviso the once-per-run error is refuted to be order independent (recorded finding); (3) the operations through which rule code touches shared tables leave them unchanged and perform no write (pre-fix sortedQuotes / checkMatrixExpression refuted); (4) a trace without unguarded writes has no data race. Tie: attribution histories on real directory trees evaluated by Projects.At and by the model (vm_compute); alone-vs-together linting of generated repositories in random subsets/orders/GOMAXPROCS; deep fingerprints of the exported tables; Go race detector. Partial: the Go memory model and goroutine scheduling are sampled, not proved; the cache protocol is proved at the granularity of mutex-protected operations.",
+ 'text': "Coq theorems: (1) a file is attributed to the nearest enclosing repository root for every history of earlier look-ups, over paths as component lists (prefix-sharing siblings and nested repositories covered; the pre-fix string-prefix cache is refuted by witnesses); (2) for EVERY interleaving of the atomic cache operations of all files of a run (FindMetadata / WriteWorkflowCallEvent on the shared per-project caches), each file's result equals its result when linted alone, provided the callees are well-formed (loads succeed, AST-derived interface = file-derived interface) — by a consistency invariant over schedules; without that proviso the once-per-run error is refuted to be order independent (recorded finding); (3) the operations through which rule code touches shared tables leave them unchanged and perform no write (pre-fix sortedQuotes / checkMatrixExpression refuted); (4) a trace without unguarded writes has no data race; (5) every package-level variable of the source (re-listed on every run) is a known read-only table / pattern / colour object / build string and no statement of the package writes one (assignment, ++, sort / delete / clear / copy on it). Tie: attribution histories on real directory trees evaluated by Projects.At and by the model (vm_compute); alone-vs-together linting of generated repositories in random subsets/orders/GOMAXPROCS; deep fingerprints of the exported tables; Go race detector. Partial: the Go memory model and goroutine scheduling are sampled, not proved; the cache protocol is proved at the granularity of mutex-protected operations.",
  'note': "Trusted: Coq kernel; hand-written models of project.go, the cache protocol and the table-touching operations (correspondence-checked for attribution, oracle-checked for isolation/tables); the file system enters as an oracle (which directories are roots, what a callee file parses to). The harness needs cgo (gcc) for -race; if the race build is unavailable the check still runs without the detector and says so in the evidence.",
  'technique': "machine-checked proof in Coq (invariant over all schedules of cache operations; nearest-root attribution over component paths) + vm_compute correspondence + alone-vs-together oracle under the Go race detector",
 }
+
+GEN = os.path.join(vf.COQ, 'Gen', 'GenGlobals.v')
+
+
+def regen(ctx, bindir):
+    """re-list the package-level variables of the package and the statements that write one;
+    write Gen only when changed"""
+    tmp = os.path.join(ctx.out, 'GenGlobals.v')
+    rc, out = vf.sh([os.path.join(bindir, 'c10'), '-extract-globals', vf.REPO, '-gen', tmp], timeout=120)
+    if rc != 0:
+        ctx.broken.append('listing the package-level variables failed: ' + out[-400:])
+        return
+    new = open(tmp).read()
+    old = open(GEN).read() if os.path.exists(GEN) else None
+    if new != old:
+        open(GEN, 'w').write(new)
+        ctx.notes.append('coq/Gen/GenGlobals.v regenerated (content changed)')
+
 
 def run(ctx):
     ok, log = vf.build_harness(ctx, ['c10'], race=True)
@@ -23,7 +41,12 @@ def run(ctx):
             vf.finish(ctx, 'proof', [])
         bindir, race = vf.BIN, False
         ctx.notes.append('race detector unavailable: ' + log[-200:])
+    regen(ctx, bindir)
     nthm, ndis, _ = vf.check_props(ctx)
+    if 'Globals' in (getattr(ctx, 'coq_log', '') or ''):
+        g = open(GEN).read()
+        ctx.broken.append('coq/Multi/Globals.v: the package has a package-level variable that is not one of the known ones, or a statement that writes one; writes now: '
+                          + ' '.join(l.strip() for l in g.split('package_var_writes')[-1].split('\n') if l.strip().startswith('(')))
     gate = vf.grep_gate()
     if gate:
         ctx.broken.append('forbidden constructs in coq/: ' + '; '.join(gate[:5]))
